@@ -4,7 +4,7 @@
 -/
 import Simpleline.Lemmas.InputStep
 
-namespace Simpleline
+namespace Simpleline.Input
 
 /-! ### induction principles -/
 
@@ -24,6 +24,17 @@ theorem reach_inpTrans_induction {P : Prog} {c0 : Cfg} {I : Cfg → Prop} (h0 : 
     ∀ {c}, Reach P c0 c → I c :=
   reach_induction h0 (fun c hr hi => ht c _ hr hi (step_inpTrans P c))
     (fun c _ hr hi hd => ht c _ hr hi (.frame (InpFrame_deliver (Same_refl c) hd)))
+
+/-- a bounded run only visits reachable configurations -/
+theorem reach_runFuel (P : Prog) (c0 : Cfg) (n : Nat) (c : Cfg) (h : Reach P c0 c) :
+    Reach P c0 (runFuel P n c).1 := by
+  induction n generalizing c with
+  | zero => exact h
+  | succ n ih =>
+    unfold runFuel
+    split
+    · rename_i c' hs; exact ih c' (.step h hs)
+    · rename_i o c' hs; exact .halt h hs
 
 theorem started_A {c0 : Cfg} (h : Started c0) :
     c0.A.ihs = [] ∧ c0.A.reqs = [] ∧ c0.A.inputStack = [] ∧ c0.A.readers = [] ∧ c0.A.processing = false ∧
@@ -258,4 +269,4 @@ theorem readOrder_reach {P : Prog} {c0 c : Cfg} (h0 : Started c0) (h : Reach P c
   obtain ⟨_, _, _, _, _, e6, _⟩ := started_A h0
   simp [ReadOrder, e6, readLines]
 
-end Simpleline
+end Simpleline.Input
